@@ -155,10 +155,17 @@ impl LinkFlowState<role::SenderMarker> {
         );
 
         if let Some(link_credit_rcv) = flow.link_credit {
-            let link_credit = delivery_count_rcv
-                .saturating_add(link_credit_rcv)
-                .saturating_sub(state.delivery_count);
-            state.link_credit = link_credit;
+            // The delivery-count is a serial number (RFC 1982) that wraps around at
+            // 2^32: take the deliveries the receiver has not yet accounted for in
+            // wrapping arithmetic and subtract them from the credit it granted
+            let outstanding = state.delivery_count.wrapping_sub(delivery_count_rcv);
+            let outstanding = if outstanding > u32::MAX / 2 {
+                // The receiver claims to have received more than was sent
+                0
+            } else {
+                outstanding
+            };
+            state.link_credit = link_credit_rcv.saturating_sub(outstanding);
         }
 
         // available
